@@ -437,7 +437,8 @@ package lisp
 //@   nopanic
 //@   ensures  [frames-below-keep-their-flags] FLAGS(env)
 //@   assert-at checkLimits [a-limit-error-is-located-at-the-form-being-evaluated] env.loc == local("v").source
-//@   property C05 C04 C06 C18 C09
+//@   assert-at return [what-a-list-form-evaluates-to-is-its-call-value-never-an-unevaluated-expansion] called("evalSExpr") ==> (arg0 == ret("evalSExpr", 0) && arg0.Type != LMarkMacExpand) || arg0.Type == LError
+//@   property C05 C04 C06 C18 C09 C07
 
 //@ func (*LEnv).evalSExpr
 //@   keeps LVal.sealed
@@ -1184,7 +1185,8 @@ package lisp
 //@ func (*LEnv).ErrorAssociate
 //@   requires rtOK(env) && lerr != nil
 //@   keeps LVal.sealed
-//@   property C09
+//@   ensures  [only-an-error-comes-back] result != nil ==> result.Type == LError
+//@   property C09 C07
 
 // use-package copies exactly the exported bindings of the named package, as
 // they are now, under the same names, into the current package.
